@@ -1,6 +1,7 @@
 import QuantemModel.Core.Proto
 import QuantemModel.Model.Registration
 import QuantemModel.Model.RegistrationExt
+import QuantemModel.Model.RegistrationExt2
 open Lean QuantemModel QuantemModel.Proto QuantemModel.Registration
 
 namespace DrvC13
@@ -288,6 +289,17 @@ def opEntry (j : Json) : Except String Json := do
   pure (Json.mkObj [("np", Json.arr #[fl sn.1, fl sn.2]), ("torch", Json.arr #[fl st.1, fl st.2]),
     ("align", Json.arr #[fl al.1, fl al.2])])
 
+/-! ### growth 6: `tomography.utils.torch_phase_cross_correlation` on integer images (exact) -/
+def opPhase (j : Json) : Except String Json := do
+  let (M, N, ref) ← matOf ratOfJson (← field j "ref")
+  let (M', N', im) ← matOf ratOfJson (← field j "im")
+  if M != M' || N != N' || M == 0 || N == 0 then throw "shape" else
+  let raw_t := Tab.make M N (fun s t => cc M N ref im (s : Int) (t : Int))
+  let raw := raw_t.get
+  let s := phaseCorr M N raw
+  let gap := topGap (M * N) (fun p => Num.abs (raw (p / N) (p % N))) (fun a b => decide (a < b)) (· - ·) 0
+  pure (Json.mkObj [("shift", Json.arr #[Json.num (JsonNumber.fromInt s.1), Json.num (JsonNumber.fromInt s.2)]), ("gap", ratToJson gap)])
+
 def step (st : Unit) (j : Json) : Unit × Json :=
   match (do
     let op ← strField j "op"
@@ -298,6 +310,7 @@ def step (st : Unit) (j : Json) : Unit × Json :=
     | "patch" => opPatch j
     | "upcorr" => opUpcorr j
     | "entry" => opEntry j
+    | "phase" => opPhase j
     | _ => throw s!"unknown op {op}" : Except String Json) with
   | .ok r => (st, okJson r)
   | .error e => (st, errJson s!"driver:{e}")
